@@ -154,8 +154,8 @@ func runWorld(t *testing.T, p *Plan, rec *RunRecord, keepLog bool) {
 	k := NewKernel(p, keepLog)
 	k.Strict = os.Getenv("VERIF_STRICT") != "0"
 	if os.Getenv("VERIF_RACEMODE") == "1" {
-		// free-running race pass: UDP-listener server-world plans (with raw or real clients) and client-world plans
-		if (p.World != "srv" && p.World != "cli") || p.Cfg.Listener == "tcp" || p.Cfg.Extra["tcp_peers"] == 1 {
+		// free-running race pass: server-world plans (UDP and TCP listeners, TCP relay; raw or real clients) and client-world plans
+		if p.World != "srv" && p.World != "cli" {
 			rec.Reason = "skipped"
 			return
 		}
